@@ -7,4 +7,7 @@ HOOK_COMMITS = [
     "e9bcde5",  # verif hook H4: expose dynamic selective reward arithmetic behind cfg(reinterpretcat_vrp_verif)
     "6f4543a",  # verif hook H3: re-export search utils from inside the utils module (previous glob stayed crate-private)
     "90b95df",  # verif hook H1: route/solution state digest behind cfg(reinterpretcat_vrp_verif)
+    "103a173",  # verif hook H8: expose the named default search operators behind cfg(reinterpretcat_vrp_verif)
+    "14b7049",  # verif hook H8b: expose the default diversification operators behind cfg(reinterpretcat_vrp_verif)
+    "92aa194",  # verif hook H8b: correct return type of the diversification operators hook
 ]
